@@ -138,6 +138,10 @@ type position struct {
 	// strings, e.g. |~ with a literal regex is a LIKE, otherwise match()). Baselines: harmless strings per shape.
 	Shape     func(eff string) string
 	Baselines map[string]string
+	// Alts: harmless strings of OTHER kinds (e.g. a pattern with a metacharacter next to a literal one). A planner may choose
+	// its rendering by the kind of string (equality for a literal pattern, match() otherwise): the statements of a request
+	// string must be those of its shape's baseline or of one of these.
+	Alts []string
 	// NoSlot: the harmless string is expected NOT to reach SQL either (the stage runs in process)
 	NoSlot bool
 }
@@ -196,6 +200,10 @@ type posStats struct {
 	Rejected   int            `json:"rejected"`      // the front end refused the request (no SQL)
 	Inexpr     int            `json:"inexpressible"` // the position cannot carry this string
 	Mismatches int            `json:"mismatches"`
+	PlainQuote int            `json:"plain_quote"`  // reached SQL: a pattern without metacharacter (its own literal) that carries a quote
+	MetaPat    int            `json:"meta_pattern"` // reached SQL: a pattern that is not a literal
+	RegexKinds bool           `json:"regex_kinds"`  // the position takes a regular expression as a comparison value
+	ViaAlt     int            `json:"via_other_kind"` // the statements are those of a harmless string of ANOTHER kind (Alts)
 	Classes    map[string]int `json:"-"`
 	Slots      int            `json:"baseline_slots"`
 	Statements int            `json:"baseline_statements"`
@@ -209,10 +217,12 @@ type checker struct {
 	// family|kind|group -> failing abstract strings
 	failing map[string]map[string]bool
 	infra []string
+	// position|alt -> why an alternative baseline could not be established (not an error by itself: the alternative is unused)
+	altErrs map[string]string
 }
 
 func newChecker(wd *world) *checker {
-	return &checker{wd: wd, base: map[string]*baseline{}, stats: map[string]*posStats{}, failing: map[string]map[string]bool{}}
+	return &checker{wd: wd, base: map[string]*baseline{}, stats: map[string]*posStats{}, failing: map[string]map[string]bool{}, altErrs: map[string]string{}}
 }
 
 func lexAll(sqls []string) ([][]chsql.Token, int, error) {
@@ -371,38 +381,71 @@ func (c *checker) check(p *position, abs, s string) {
 	}
 	_ = pan
 	st.Reached++
+	if len(p.Alts) > 0 {
+		st.RegexKinds = true
+		if l, ok := regexLiteral(eff); !ok {
+			st.MetaPat++
+		} else if l == eff && strings.Contains(eff, "'") {
+			st.PlainQuote++
+		}
+	}
 	for i := 0; i < len(abs); i++ {
 		st.Classes[abs[i:i+1]]++
-	}
-	if len(sqls) != len(b.SQL) {
-		// fewer statements: the request stopped early (e.g. an error after the first statement); compare the prefix
-		if len(sqls) > len(b.SQL) {
-			c.record(p, mk("structure", fmt.Sprintf("%d statements instead of %d", len(sqls), len(b.SQL)), "", "", "a different number of statements is sent"))
-			return
-		}
 	}
 	var want []lit
 	if p.Want != nil {
 		want = p.Want(eff)
 	}
+	// the statements must be those of a harmless string: of the one of the string's own kind (shape) or of one of the
+	// other kinds the position knows (Alts) -- WHICH rendering a planner picks for a string is its own business (a literal
+	// pattern may become an equality or a LIKE), that every rendering keeps the string inside its literal is the property
+	f := c.compare(b, sqls, want)
+	if f == nil {
+		return
+	}
+	if f.kind != "lexfail" {
+		for i := range p.Alts {
+			ab, err := c.getBaseline(p, altKey(i))
+			if err != nil {
+				c.altErrs[p.Name+"|"+altKey(i)] = err.Error()
+				continue
+			}
+			if c.compare(ab, sqls, want) == nil {
+				st.ViaAlt++
+				return
+			}
+		}
+	}
+	m := mk(f.kind, f.detail, f.exp, f.obs, f.judge)
+	c.record(p, m)
+}
+
+type cmpFail struct{ kind, detail, exp, obs, judge string }
+
+func altKey(i int) string { return fmt.Sprintf("alt:%d", i) }
+
+// compare tokenises the statements and compares them with the baseline token by token; nil = same structure, every literal
+// of the request string carries an acceptable value, no other token differs.
+func (c *checker) compare(b *baseline, sqls []string, want []lit) *cmpFail {
+	if len(sqls) > len(b.SQL) {
+		// (fewer statements: the request stopped early, e.g. an error after the first statement; the prefix is compared)
+		return &cmpFail{"structure", fmt.Sprintf("%d statements instead of %d", len(sqls), len(b.SQL)), "", "", "a different number of statements is sent"}
+	}
 	for i, q := range sqls {
 		ts, err := chsql.Lex(q)
 		if err != nil {
-			c.record(p, mk("lexfail", fmt.Sprintf("statement %d does not tokenise: %v", i, err), "", "",
-				"INJECTION: the literal is not closed where the planner thinks it is; the rest of the statement changes meaning"))
-			return
+			return &cmpFail{"lexfail", fmt.Sprintf("statement %d does not tokenise: %v", i, err), "", "",
+				"INJECTION: the literal is not closed where the planner thinks it is; the rest of the statement changes meaning"}
 		}
 		bt := b.Toks[i]
 		if len(ts) != len(bt) {
-			c.record(p, mk("structure", fmt.Sprintf("statement %d has %d tokens, baseline %d\n got: %s\nbase: %s", i, len(ts), len(bt), kindsOf(ts), kindsOfInfo(bt)), "", "",
-				"INJECTION: the token structure differs from the one of a harmless string"))
-			return
+			return &cmpFail{"structure", fmt.Sprintf("statement %d has %d tokens, baseline %d\n got: %s\nbase: %s", i, len(ts), len(bt), kindsOf(ts), kindsOfInfo(bt)), "", "",
+				"INJECTION: the token structure differs from the one of a harmless string"}
 		}
 		for j, t := range ts {
 			if t.Kind != bt[j].Kind {
-				c.record(p, mk("structure", fmt.Sprintf("statement %d token %d is %s %q, baseline %s %q", i, j, t.Kind, t.Text, bt[j].Kind, bt[j].Text), "", "",
-					"INJECTION: the token structure differs from the one of a harmless string"))
-				return
+				return &cmpFail{"structure", fmt.Sprintf("statement %d token %d is %s %q, baseline %s %q", i, j, t.Kind, t.Text, bt[j].Kind, bt[j].Text), "", "",
+					"INJECTION: the token structure differs from the one of a harmless string"}
 			}
 		}
 		for j, t := range ts {
@@ -413,17 +456,16 @@ func (c *checker) check(p *position, abs, s string) {
 					if w.Like {
 						obs += " = LIKE pattern meaning " + strconv.Quote(likeString(likeDecode(t.Val)))
 					}
-					c.record(p, mk("value", fmt.Sprintf("statement %d token %d: literal %s", i, j, t.Text), w.describe(), obs,
-						"WRONG ANSWER: same token structure, but the literal decodes to a different value than the user's string"))
-					return
+					return &cmpFail{"value", fmt.Sprintf("statement %d token %d: literal %s", i, j, t.Text), w.describe(), obs,
+						"WRONG ANSWER: same token structure, but the literal decodes to a different value than the user's string"}
 				}
 			} else if t.Text != bt[j].Text {
-				c.record(p, mk("foreign", fmt.Sprintf("statement %d token %d: %q, baseline %q", i, j, t.Text, bt[j].Text), "", "",
-					"the request string changes a token that is not its own literal"))
-				return
+				return &cmpFail{"foreign", fmt.Sprintf("statement %d token %d: %q, baseline %q", i, j, t.Text, bt[j].Text), "", "",
+					"the request string changes a token that is not its own literal"}
 			}
 		}
 	}
+	return nil
 }
 
 func kindsOfInfo(ts []tokInfo) string {
